@@ -112,6 +112,8 @@ def run_check(pid, tier, seed, replay=None, repeat=1):
                 bs = prop.get('batch', 20)
                 for ch in R.chunk(cs, bs):
                     jobs.append((exe, ch, False, env, list(wrap) or None, tsc))
+        # a handful of watchdog time-outs is enough to stop a small run; a large one under load may see a few slow cases
+        runner.max_timeouts = max(runner.max_timeouts, len(items) // 200)
         recs = runner.run_all(jobs)
         # time-outs: inconclusive once, re-run; a second time-out is a hang witness
         tmo = [cid for cid, r in recs.items() if r.get('timeout')]
